@@ -49,14 +49,10 @@ def main():
                             if racah_sum_is_zero(j1, j2, j3, m1, m2, m3):
                                 out.append([j2, j3, m2, m3, j1])
                                 break
-            # keep the corpus small: at most four argument sets per (j2, j3), spread over the ones found
-            found = out[mark:]
-            if len(found) > 4:
-                out[mark:] = [found[0], found[len(found) // 3], found[2 * len(found) // 3], found[-1]]
         print(j2, len(out), file=sys.stderr)
-    path = os.path.join(os.path.dirname(os.path.abspath(__file__)), "..", "vlib", "data", "w3j_nontrivial_zeros.json")
-    json.dump({"doc": __doc__.split("usage")[0].strip(), "J2MAX": J2, "J3MAX": J3, "cases": out}, open(path, "w"))
-    print(len(out), "cases ->", path)
+    path = os.path.join(os.path.dirname(os.path.abspath(__file__)), "..", "vlib", "data", "w3j_nontrivial_zeros.npy")
+    np.save(path, np.array(out, dtype=np.int16))      # columns: j2, j3, m2, m3, j1 of the zero
+    print(len(out), "cases ->", path, "(J2MAX, J3MAX) =", (J2, J3))
 
 
 if __name__ == "__main__":
